@@ -315,6 +315,61 @@ func zxC08Having() {
 	vrtReach("C08.H")
 }
 
+// C08.G — HAVING over a series with holes: key {x:1} has field a in the newest and the oldest of
+// three periods and nothing in between, field b only in the middle period (symbolic values).
+// Every row a query with HAVING returns is a row of the HAVING-free query (same period, key and
+// values): HAVING filters rows, it does not create any — neither for a period in which nothing
+// was recorded nor for one in which only an unselected operand of the predicate was.
+//
+//zx:harness prop=C08 id=C08.G tier=quick mode=real
+func zxC08HavingHoles() {
+	cases := []struct{ with, without string }{
+		{"SELECT a FROM t GROUP BY x HAVING a < 5", "SELECT a FROM t GROUP BY x"},
+		{"SELECT a FROM t GROUP BY x HAVING b > 5", "SELECT a FROM t GROUP BY x"},
+		{"SELECT a, b FROM t GROUP BY x HAVING a <= b", "SELECT a, b FROM t GROUP BY x"},
+		{"SELECT a FROM t HAVING a = 0", "SELECT a FROM t"},
+	}
+	c := cases[vrtShape("case", len(cases))]
+	fields := zxTableFields()
+	mk := func(e expr.Expr, at map[int]float64) encoding.Sequence {
+		seq := encoding.NewSequence(e.EncodedWidth(), 3)
+		seq.SetUntil(zxUntil)
+		for p, v := range at {
+			seq.UpdateValueAt(p, e, expr.FloatParams(v), nil)
+		}
+		return seq
+	}
+	a0, a2, b1 := vrtFloat64("a0"), vrtFloat64("a2"), vrtFloat64("b1")
+	vrtAssume(vrtAnd(vrtFinite(a0), vrtAnd(vrtFinite(a2), vrtFinite(b1))))
+	tbl := &zxTable{name: "t", fields: fields, partitionBy: []string{"x"}}
+	tbl.keys = append(tbl.keys, bytemap.New(map[string]interface{}{"x": 1}))
+	tbl.vals = append(tbl.vals, core.Vals{mk(fields[0].Expr, map[int]float64{0: 1, 1: 1, 2: 1}), mk(fields[1].Expr, map[int]float64{0: a0, 2: a2}), mk(fields[2].Expr, map[int]float64{1: b1})})
+	pw, err1 := Plan(c.with, zxOpts(map[string]*zxTable{"t": tbl}))
+	po, err2 := Plan(c.without, zxOpts(map[string]*zxTable{"t": tbl}))
+	vrtAssert(err1 == nil && err2 == nil, "both queries plan: "+c.with)
+	if err1 != nil || err2 != nil {
+		return
+	}
+	got, _, gerr := zxRun(pw)
+	all, _, aerr := zxRun(po)
+	vrtAssert(gerr == nil && aerr == nil, "both queries run")
+	for _, g := range got {
+		found := false
+		for _, r := range all {
+			if r.ts == g.ts && r.key == g.key && len(r.vals) == len(g.vals) {
+				same := true
+				for i := range r.vals {
+					same = vrtAnd(same, vrtFloatEq(r.vals[i], g.vals[i]))
+				}
+				found = found || same
+			}
+		}
+		vrtAssert(found, "every row returned with HAVING is a row of the HAVING-free query: "+c.with)
+	}
+	vrtAssert(len(got) <= len(all), "HAVING never returns more rows than the HAVING-free query: "+c.with)
+	vrtReach("C08.G")
+}
+
 type zxWhereCase struct {
 	sql  string
 	pred func(r zxInRow) bool
